@@ -65,56 +65,18 @@ func vfProdRegionsAt(run *vfProdRun, before int64) []string {
 		// history-based regions: what happened before the symptom
 		connErr, bump := false, false
 		epochOnWire, explained := int64(0), int64(0)
-		answeredOK := map[string]bool{}
-		// a produce request still unanswered on one connection when the next one from this client reaches the same broker on
-		// another connection: the client gave the first connection up (its read timeout expired while the answer was held),
-		// which is a connection-level failure too. The request at `before` itself counts here: it is the one that shows it.
-		type openReq struct {
-			conn     int
-			answered bool
-		}
-		lastReq := map[int32]*openReq{}
-		for _, e := range run.sim.hist.snapshot() {
-			if e.Seq > before {
-				break
-			}
-			switch e.Kind {
-			case "produce-part":
-				if o := lastReq[e.Broker]; o != nil && o.conn != e.Conn && !o.answered {
-					connErr = true
-				}
-				if o := lastReq[e.Broker]; o == nil || o.conn != e.Conn || o.answered {
-					lastReq[e.Broker] = &openReq{conn: e.Conn}
-				}
-			case "produce-resp":
-				if o := lastReq[e.Broker]; o != nil && o.conn == e.Conn {
-					o.answered = true
-				}
-			}
-		}
+		// connection-level failure = the producer took its handleError path (hook event recorded by the client itself, before
+		// it re-queues anything); position-aware like everything else here
 		for _, e := range run.sim.hist.snapshot() {
 			if e.Seq >= before {
 				break
 			}
 			switch e.Kind {
-			case "produce-drop", "produce-silent", "broker-down":
+			case "client-conn-error":
 				connErr = true
 			case "produce-part":
 				if len(e.Vals) >= 8 && e.Vals[5] > epochOnWire {
 					epochOnWire = e.Vals[5]
-				}
-				if len(e.Vals) >= 8 {
-					// a batch that was answered without an error code and comes again: the client lost the answer on its side
-					// (read timeout on a loaded machine), which is a connection-level failure as far as the producer is concerned
-					// (the same records under the same producer id, epoch and sequence; other records under a sequence range that
-					// was used before are not a resend, they are a sequence error of the client)
-					k := fmt.Sprintf("%s/%d/%d/%d/%v", e.Key, e.Vals[4], e.Vals[5], e.Vals[6], e.Ids)
-					if answeredOK[k] {
-						connErr = true
-					}
-					if e.Fault == "ok" && (e.Code == 0 || e.Code == 46) {
-						answeredOK[k] = true
-					}
 				}
 			}
 		}
